@@ -53,7 +53,7 @@ class ECPAccumulator:
                 elif maxL == 2:
                     naip[i] = 12
         if isinstance(naip, int):  # compatibility with old behavior
-            naip = naip * np.zeros(len(self.functors), dtype=int)
+            naip = naip * np.ones(len(self.functors), dtype=int)
         totaip = np.sum(naip)
         self.naip = naip
 
